@@ -385,6 +385,18 @@ func (o *oracle) checkAfterEvent(e *event) {
 			case ModeValidation:
 				c.Violate("consensus-failure", "C02/consensus-failure/"+site, "node %d: consensus receive routine died (recovered panic): %s", n.idx, n.failMsg)
 			case ModeHostile:
+				if e.hostile == nil && cl.recoverSeen {
+					// A run that entered recover mode: nodes that switched and nodes that
+					// did not hold different validator sets and cannot validate each
+					// other's blocks ("+2/3 committed an invalid block" in finalizeCommit
+					// of a node catching up). That divergence needs no peer message at all
+					// (the hostile recover trigger is refused since 8652b44), so a routine
+					// that dies on an HONEST event in such a run is not attributed to the
+					// hostile peer; one that dies while handling a hostile message still is.
+					c.Probe("consensus-failure-on-honest-event-in-recover-mode-run-not-attributed")
+					c.Probe("consensus-failure-site/" + site)
+					break
+				}
 				c.Violate("consensus-failure", "C16/consensus-failure/"+site, "node %d: consensus receive routine died (recovered panic): %s", n.idx, n.failMsg)
 			default:
 				// not what this property is about: the node counts as crashed
